@@ -26,10 +26,17 @@ def derived_from_params(fn):
                 targets = [n.target]
             elif isinstance(n, ast.Assign):
                 v = n.value
-                # a constructor call / conversion creates a new object: not derived (self.objcls(value))
-                if isinstance(v, ast.Call) and not (isinstance(v.func, ast.Attribute) and v.func.attr in ("items", "keys", "values", "get")):
+                # only aliases and views of a derived object are derived: x = p, x = p[k], x = p.attr, x = p.items();
+                # a constructor call, a display ([...], {...}) or a comprehension builds a new object
+                base = v
+                while isinstance(base, (ast.Subscript, ast.Attribute)):
+                    base = base.value
+                if isinstance(base, ast.Call) and isinstance(base.func, ast.Attribute) and base.func.attr in ("items", "keys", "values", "get") \
+                        and isinstance(base.func.value, ast.Name):
+                    base = base.func.value
+                if not isinstance(base, ast.Name):
                     continue
-                src_names = {x.id for x in ast.walk(v) if isinstance(x, ast.Name)}
+                src_names = {base.id}
                 targets = n.targets
             if src_names and (src_names & derived):
                 for t in targets:
@@ -296,6 +303,10 @@ def rule_w1(repo, res, which=("quoted", "symbol", "flags")):
         tainted_calls = []
         for call in [n for n in ast.walk(fn) if isinstance(n, ast.Call) and norm(n.func) == "self.format"]:
             arg = call.args[0] if call.args else None
+            if arg is not None and not isinstance(arg, ast.Name):
+                # the text may pass through a helper: self.format(self._delimited(s), level)
+                inner = [x for x in ast.walk(arg) if isinstance(x, ast.Name) and x.id not in ("self", "level")]
+                arg = inner[0] if inner else None
             if not isinstance(arg, ast.Name):
                 continue
             # statements before the call (in source order) that add the encoded value to that variable
@@ -461,11 +472,19 @@ def rule_c12_config(repo, res):
 
 
 def _guarded_by(node, fn, cond_src):
+    """Is *node* control-dependent on a test that mentions *cond_src* positively (if-body or conditional
+    expression body)?  The test may be richer than the bare attribute (`self.end_delimiter is True`, `a and b`)."""
     n = node
     while n is not None and n is not fn:
         p = getattr(n, "_parent", None)
-        if isinstance(p, ast.If) and norm(p.test) == cond_src and n in p.body:
-            return True
+        if isinstance(p, (ast.If, ast.IfExp)):
+            t = norm(p.test)
+            in_body = (n in p.body) if isinstance(p, ast.If) else (n is p.body)
+            in_else = (n in p.orelse) if isinstance(p, ast.If) else (n is p.orelse)
+            if cond_src in t and in_body and not t.startswith("not "):
+                return True
+            if t in (f"not {cond_src}", f"{cond_src} is False", f"{cond_src} == False") and in_else:
+                return True
         n = p
     return False
 
@@ -485,7 +504,7 @@ def rule_c12_structure(repo, res):
                         res.add(Finding("DELIM", f"{cls}.{m}", norm(getattr(n, "_parent", n), 60),
                                         f"{cls}.{m} writes a statement delimiter outside `if self.end_delimiter:`: dialects "
                                         "without statement delimiters (ODL, PDS3, ISIS) get them", where=f"pvl/encoder.py:{n.lineno}"))
-    res.floor("uses of grammar.delimiters in the encoders", n_delims, 4)
+    res.floor("uses of grammar.delimiters in the encoders", n_delims, 1)
     # block keywords
     fn = repo.method("PVLEncoder", "encode_aggregation_block")
     src = norm(fn, 8000)
@@ -504,11 +523,19 @@ def rule_c12_structure(repo, res):
                         f"encode_aggregation_block selects block keywords as {kv}: groups and objects are written with "
                         "the wrong (or mismatched) begin/end keywords", where=f"pvl/encoder.py:{fn.lineno}"))
     var = kv[0] if kv else "agg_keywords"
-    begin_ok = any(isinstance(n, ast.Call) and isinstance(n.func, ast.Attribute) and n.func.attr == "format" and
-                   [norm(a) for a in n.args] == [f"{var}[0]", "key"] for n in ast.walk(fn))
-    end_named = any(isinstance(n, ast.Call) and isinstance(n.func, ast.Attribute) and n.func.attr == "format" and
-                    [norm(a) for a in n.args] == [f"{var}[1]", "key"] and _guarded_by(n, fn, "self.aggregation_end") for n in ast.walk(fn))
-    end_plain = any(isinstance(n, ast.AugAssign) and norm(n.value) == f"{var}[1]" for n in ast.walk(fn))
+
+    def builds(n, idx, with_key):
+        """a string-building expression (format call, f-string, concatenation) over keywords[idx] (and the key)"""
+        if not isinstance(n, (ast.Assign, ast.AugAssign)):
+            return False
+        subs = {norm(x) for x in ast.walk(n.value)}
+        has_kw = f"{var}[{idx}]" in subs
+        has_key = "key" in subs
+        other = f"{var}[{1 - idx}]" in subs
+        return has_kw and not other and (has_key == with_key)
+    begin_ok = any(builds(n, 0, True) for n in ast.walk(fn))
+    end_named = any(builds(n, 1, True) and _guarded_by(n, fn, "self.aggregation_end") for n in ast.walk(fn))
+    end_plain = any(builds(n, 1, False) and not _guarded_by(n, fn, "self.aggregation_end") for n in ast.walk(fn))
     for what, ok in (("begin statement '<begin keyword> = <name>' from keywords[0]", begin_ok),
                      ("end statement '<end keyword> = <name>' from keywords[1] when aggregation_end", end_named),
                      ("bare end keyword keywords[1] otherwise", end_plain)):
